@@ -294,6 +294,30 @@ func (h *MemHandle) Write(b []byte) (int, error) {
 	return len(b), nil
 }
 
+// WriteAt is (*os.File).WriteAt: the handle's position stays where it is.
+func (h *MemHandle) WriteAt(b []byte, off int64) (int, error) {
+	if h.closed {
+		return 0, fs.ErrClosed
+	}
+	if off < 0 {
+		return 0, errors.New("writeat: negative offset")
+	}
+	f := h.fs
+	if f.opFault() {
+		return 0, ErrInjected
+	}
+	if f.FailWriteAt >= 0 && f.writes == f.FailWriteAt {
+		f.writes++
+		return 0, ErrInjected
+	}
+	f.writes++
+	pos := h.pos
+	h.pos = off
+	h.writeAt(b)
+	h.pos = pos
+	return len(b), nil
+}
+
 func (h *MemHandle) writeAt(b []byte) {
 	n := h.n
 	end := int(h.pos) + len(b)
